@@ -82,6 +82,20 @@ COMMON_TB = [
 ]
 
 PROPS = {
+    "C09": {
+        "harness": "c09", "driver": "c09",
+        "lean_modules": ["BleveModel.Props.C09"],
+        "rule": ("corpora of 3-36 documents partitioned into 1-5 in-memory shards of mixed engines (skewed and empty shards), alias "
+                 "trees (flat and nested), a single index with all documents; requests with total score-independent sorts (0-2 field "
+                 "keys with min/max mode and missing first/last plus _id), From/Size pages incl. Size 0, SearchAfter/SearchBefore "
+                 "from hits of the full ordering, stored fields, terms/numeric/date facets whose size covers all buckets. Compared: "
+                 "canonical alias result vs single-index result (Total, ids in order, sort keys, stored fields, facets), and the Lean "
+                 "model of MultiSearch / FacetResult.Merge+Fixup applied to the members' real answers vs the flat alias. "
+                 "non-trivial = at least two shards and a non-empty page"),
+        "trusted_base": COMMON_TB + ["members answer the child request correctly (C06/C10)"],
+        "assumptions": ["scores are not compared (they legitimately differ between shards)", LEVEL_NOTE],
+        "thorough_shards": 16,
+    },
     "C10": {
         "harness": "c10", "driver": "c10",
         "lean_modules": ["BleveModel.Props.C10"],
